@@ -136,5 +136,9 @@ def validate(module, cfg_consts, traces, modules=None, shards=None, timeout=1800
             else:
                 vd.ok = False
                 vd.step, vd.clause, vd.expected = v[2], v[3], v[4]
-    stats = {'steps': steps, 'traces': len(traces), 'tlc_states': states, 'shards': len(jobs), 'wall_s': t.s()}
+    notes = {}
+    for r in results:
+        for tag in ('OOD',):
+            notes[tag] = notes.get(tag, 0) + r.out.count('<<"%s"' % tag)
+    stats = {'notes': notes, 'steps': steps, 'traces': len(traces), 'tlc_states': states, 'shards': len(jobs), 'wall_s': t.s()}
     return verdicts, stats
